@@ -20,7 +20,7 @@ view == << lo, hi, pool >>
 Probe == (lo - 1) .. (hi + 1)
 F     == FreeSet(pool)
 Used  == (lo .. hi) \ F
-Min(S) == CHOOSE x \in S : \A y \in S : x <= y
+MinOf(S) == CHOOSE x \in S : \A y \in S : x <= y
 
 Init ==
   \E l \in 0..MaxV, h \in 0..MaxV :
@@ -53,10 +53,10 @@ F2 == FreeSet(pool')
 SetSemantics ==
   LET o == last'.op  v == last'.v IN
   /\ o = "allocate"     => IF F = {} THEN ~last'.ok /\ F2 = F
-                                     ELSE last'.ok /\ last'.val = Min(F) /\ F2 = F \ {Min(F)}
+                                     ELSE last'.ok /\ last'.val = MinOf(F) /\ F2 = F \ {MinOf(F)}
   /\ o = "first_vacant" => /\ F2 = F
                            /\ last'.ok = (F # {})
-                           /\ (F # {} => last'.val = Min(F))
+                           /\ (F # {} => last'.val = MinOf(F))
   /\ o = "use_value"    => last'.ok = (v \in F) /\ F2 = F \ {v}
   /\ o = "deallocate"   => F2 = F \cup {v}
   /\ o = "is_used"      => last'.ok = (v \in lo..hi /\ v \notin F) /\ F2 = F
